@@ -796,7 +796,7 @@ func sweep(yield func(jCase) bool) {
 }
 
 func props() []rp.Prop {
-	return []rp.Prop{rp.P[jCase]{Name: "json", Checks: ev.Pick(60000, 3000000) / ev.Shards(), Gen: genCase, Sweep: sweep, Check: check}}
+	return []rp.Prop{rp.P[jCase]{Name: "json", Checks: ev.Pick(60000, 15000000) / ev.Shards(), Gen: genCase, Sweep: sweep, Check: check}}
 }
 
 func TestC14(t *testing.T)    { rp.RunAll(t, props()...) }
